@@ -1306,7 +1306,13 @@ def mangle_mako_loop(node, printer):
     node.accept_visitor(loop_variable)
     if loop_variable.detected:
         node.nodes[-1].has_loop_context = True
-        match = _FOR_LOOP.match(node.text)
+        text = node.text
+        # leave out a comment after the colon, as PythonFragment does; the
+        # iterable is otherwise taken to extend to a colon within it
+        m = re.match(r"^(\w+)(?:\s+(.*?))?:\s*(#|$)", text.strip(), re.S)
+        if m and m.group(3):
+            text = text.strip()[: m.start(3)].rstrip()
+        match = _FOR_LOOP.match(text)
         if match:
             printer.writelines(
                 "loop = __M_loop._enter(%s)" % match.group(2),
